@@ -32,7 +32,7 @@ type connInfo struct {
 	sender        *peer    // UDP: the sender of the datagram this identity stands for
 	asyncIssued   [][]byte // payloads of asynchronous writes with callback, in issue order
 	asyncDone     int
-	untracked     bool // an asynchronous write without callback was issued: effect point unknown to the oracle
+	untracked     bool  // an asynchronous write without callback was issued: effect point unknown to the oracle
 	g             int64 // goroutine of the connection's first callback: its event loop (guarded by handler.mu)
 	inCb          int   // callbacks of this connection in progress (nesting on the owner goroutine is legitimate)
 }
